@@ -82,7 +82,7 @@ pub fn run(run: &Run) {
          Rules::case_mapping_rule of UsernameCaseMapped and Nickname. Oracle: concatenation of char::to_lowercase per character. \
          Non-trivial: the string contains a character that has a lowercase mapping different from itself and no is_uppercase \
          character stands before it (the case a fast path keyed on is_uppercase gets wrong) or any mapped character first; \
-         distinct = distinct (profile,input). Plus the deterministic long-input / call-order batteries of DESIGN.md 8.1 that apply to this property (alignment sweeps 0..72 and around 128..65536 bytes, runs and exact counts, sandwiches and multi-megabyte inputs, exhaustive pair sets, plane/byte aliases, hash-colliding pairs back to back, owned arguments with spare capacity); each battery is a finite list enumerated completely and appears as its own section in 'sections'.",
+         distinct = distinct (profile,input). Plus the deterministic long-input / call-order batteries of DESIGN.md 8.1 and 8.2 that apply to this property (extreme scale, mark neighbours, distinct runs with repeats, environment children, thread lifetime, concurrent distinct inputs; alignment sweeps 0..72 and around 128..65536 bytes, runs and exact counts, sandwiches and multi-megabyte inputs, exhaustive pair sets, plane/byte aliases, hash-colliding pairs back to back, owned arguments with spare capacity); each battery is a finite list enumerated completely and appears as its own section in 'sections'.",
     );
     run.assume("char::to_lowercase of the toolchain's std is the untailored full lowercase mapping the README documents (same std as the library: no version skew)");
     let profs = [Prof::UserMapped, Prof::Nick];
